@@ -37,6 +37,10 @@ const CORPUS: &[(&str, &str)] = &[
         "split and join",
         "Listen to the words\nCut the words into pieces with \" \"\nSay pieces\nJoin pieces into glue with \"-\"\nSay glue\nCast \"42\" into Answer\nSay Answer plus 1\nTurn up Answer\nSay Answer\n",
     ),
+    ("crlf poetic string", "Tommy says hello there\r\nSay Tommy\r\nListen to Gina\r\nSay Gina\r\n"),
+    ("byte order mark", "\u{feff}Say \"bom\"\n"),
+    ("trailing whitespace and blank lines", "Say \"a\"   \n\t\nSay \"b\"\n\n\n   \n"),
+    ("tabs and form feed", "\tSay \"indented\"\n\u{c}Say \"after form feed\"\n"),
     ("empty", ""),
     ("only blank lines", "\n\n\n"),
     ("hello", "Say \"Hello, World!\"\n"),
@@ -220,6 +224,7 @@ enum LibRef {
 }
 
 fn library(w: &WorldSpec) -> Result<LibRef, String> {
+    crate::driver::heartbeat();
     let source = match std::str::from_utf8(&w.source) {
         Ok(s) => s,
         Err(_) => return Err("not utf8".into()),
